@@ -223,4 +223,144 @@ theorem good_dot_short (c : List Nat) (o e : Nat) (sign : List Nat) (d1 : Nat) (
       rw [hFeq]
       simpa [List.append_assoc, hFl2] using this
 
+/-- `[+-]? d₁ x₁₈ rest [. F] [exp]` — 19 or more integer digits on the real path (something follows the digits, or
+the digits do not fit 64 bits): integer regime -/
+theorem good_int_long (c : List Nat) (o e : Nat) (sign : List Nat) (d1 : Nat) (x18 rest F DF EP es ks : List Nat)
+    (hs : sign = [] ∨ sign = [43] ∨ sign = [45]) (h1 : isNonZeroDigit d1 = true)
+    (hx18 : AllDigits x18) (hl : x18.length = 18) (hrest : AllDigits rest) (hF : AllDigits F)
+    (hDF : (DF = [] ∧ F = []) ∨ (DF = 46 :: F ∧ F ≠ [])) (hEP : ExpPart EP es ks)
+    (hu : unitsAt c e o (sign ++ (d1 :: x18 ++ rest) ++ DF ++ EP))
+    (hQ : o + sign.length + 19 + rest.length + DF.length + EP.length = e) (hbound : e ≤ 99999000)
+    (hreal : DF ≠ [] ∨ EP ≠ [] ∨ 2 ≤ rest.length ∨
+      (∃ d20, rest = [d20] ∧ (decVal (d1 :: x18) > 0x1999999999999999 ∨ (decVal (d1 :: x18) = 0x1999999999999999 ∧ d20 > 53)))) :
+    Good (decide (sign = [45])) (valFrac (decVal (d1 :: x18 ++ rest ++ F)) (decVal ks) (decide (es = [45])) F.length).1
+      (valFrac (decVal (d1 :: x18 ++ rest ++ F)) (decVal ks) (decide (es = [45])) F.length).2 e (strToNum c o e) := by
+  have he : e < 2 ^ 32 := by omega
+  have hdig := isNonZeroDigit_isDigit h1
+  have hf : d1 ≠ 45 ∧ d1 ≠ 43 := by simp [isDigit] at hdig; omega
+  have hA := (unitsAt_append c e (sign ++ (d1 :: x18 ++ rest) ++ DF) EP o).1 hu
+  have hB := (unitsAt_append c e (sign ++ (d1 :: x18 ++ rest)) DF o).1 hA.1
+  have hu' := (unitsAt_append c e sign (d1 :: x18 ++ rest) o).1 hB.1
+  have hu1 : unitsAt c e o (sign ++ [d1]) := (unitsAt_append c e sign [d1] o).2 ⟨hu'.1, hu'.2.1, trivial⟩
+  have hsp := (unitsAt_append c e (d1 :: x18) rest (o + sign.length)).1 hu'.2
+  have hl19 : (d1 :: x18).length = 19 := by simp; omega
+  have hIu : unitsAt c e (o + sign.length) (d1 :: x18) := hsp.1
+  have hru : unitsAt c e (o + sign.length + 19) rest := by have := hsp.2; rw [hl19] at this; exact this
+  have hDFu : unitsAt c e (o + sign.length + 19 + rest.length) DF := by
+    have := hB.2
+    simp only [List.length_append, List.length_cons] at this
+    rw [show o + sign.length + 19 + rest.length = o + (sign.length + (x18.length + 1 + rest.length)) by omega]; exact this
+  have hEPu : unitsAt c e (o + sign.length + 19 + rest.length + DF.length) EP := by
+    have := hA.2
+    simp only [List.length_append, List.length_cons] at this
+    rw [show o + sign.length + 19 + rest.length + DF.length =
+      o + (sign.length + (x18.length + 1 + rest.length) + DF.length) by omega]; exact this
+  have hall : AllDigits (d1 :: x18) := by
+    intro y hy
+    rcases List.mem_cons.1 hy with h | h
+    · subst h; exact hdig
+    · exact hx18 y h
+  have hv19 := decVal_lt_pow (d1 :: x18) hall
+  rw [hl19] at hv19
+  have hv64 : decVal (d1 :: x18) < 2 ^ 64 := Nat.lt_of_lt_of_le hv19 (by decide)
+  rw [strToNum_after_sign c o e sign d1 hs hu1 hf]
+  -- the unit after a run of the text, when the run is followed by DF/EP
+  have hnextsep : ∀ P, unitsAt c e P DF → unitsAt c e (P + DF.length) EP → (DF ≠ [] ∨ EP ≠ []) →
+      ∃ u, rd c e P = some u ∧ isDotOrE u = true := by
+    intro P h1' h2' hne
+    rcases hDF with ⟨rfl, _⟩ | ⟨rfl, _⟩
+    · rcases hEP with ⟨rfl, _, _⟩ | ⟨m, hmE, rfl, _, _, _⟩
+      · rcases hne with h | h <;> exact absurd rfl h
+      · refine ⟨m, by simpa using h2'.1, ?_⟩
+        rcases hmE with h | h <;> subst h <;> decide
+    · exact ⟨46, h1'.1, by decide⟩
+  cases rest with
+  | nil =>
+    simp only [List.length_nil, Nat.add_zero, List.append_nil] at hDFu hEPu hQ ⊢
+    have hne : DF ≠ [] ∨ EP ≠ [] := by
+      rcases hreal with h | h | h | ⟨d, h, _⟩
+      · exact Or.inl h
+      · exact Or.inr h
+      · simp at h
+      · cases h
+    obtain ⟨u, hu19, hsep⟩ := hnextsep _ hDFu hEPu hne
+    rw [afterSign_19_sep c e _ (o + sign.length) d1 x18 u he h1 hx18 hl hIu hu19 hsep]
+    have := glueI c e (decide (sign = [45])) (o + sign.length + 19) (o + sign.length) (d1 :: x18) d1 x18 [] F DF EP es ks 19
+      hbound rfl h1 hall hl19 (by omega) (by omega) hv64 (by omega) (by intro y hy; cases hy) hF trivial hDF
+      (by simpa using hDFu) hEP (by simpa using hEPu) (by simp; omega)
+      (by rcases hne with h | h
+          · exact Or.inr (Or.inl h)
+          · exact Or.inr (Or.inr h))
+      (by simp only [b2n, Bool.not_false, Bool.true_and, Bool.false_eq_true, if_false]
+          rw [sub32_sub32 _ _ 0 (by omega) (by omega)]; omega)
+    simpa using this
+  | cons d20 rt =>
+    have hd20 : isDigit d20 = true := hrest d20 (by simp)
+    have hrt : AllDigits rt := fun y hy => hrest y (by simp [hy])
+    have hr20 : rd c e (o + sign.length + 19) = some d20 := hru.1
+    have hrtu : unitsAt c e (o + sign.length + 20) rt := by
+      have := hru.2; rw [show o + sign.length + 19 + 1 = o + sign.length + 20 by omega] at this; exact this
+    simp only [List.length_cons] at hDFu hEPu hQ
+    have hu20 : unitsAt c e (o + sign.length) (d1 :: x18 ++ [d20]) :=
+      (unitsAt_append c e (d1 :: x18) [d20] (o + sign.length)).2 ⟨hIu, by rw [hl19]; exact ⟨hr20, trivial⟩⟩
+    by_cases hbig : decVal (d1 :: x18) > 0x1999999999999999 ∨ (decVal (d1 :: x18) = 0x1999999999999999 ∧ d20 > 53)
+    · rw [afterSign_longint_A c e _ (o + sign.length) d1 x18 d20 he h1 hx18 hl hd20 hu20 hbig]
+      have := glueI c e (decide (sign = [45])) (o + sign.length + 19) (o + sign.length) (d1 :: x18) d1 x18 (d20 :: rt) F DF EP
+        es ks 19 hbound rfl h1 hall hl19 (by omega) (by omega) hv64 (by omega) hrest hF hru hDF
+        (by simp only [List.length_cons]; exact hDFu) hEP (by simp only [List.length_cons]; exact hEPu)
+        (by simp only [List.length_cons]; omega) (Or.inl (by simp))
+        (by simp only [b2n, Bool.not_false, Bool.true_and, Bool.false_eq_true, if_false]
+            rw [sub32_sub32 _ _ 0 (by omega) (by omega)]; omega)
+      simpa using this
+    · -- the 20th digit is taken; something must follow it
+      have hnext : ∃ u, rd c e (o + sign.length + 20) = some u ∧ (isDigit u = true ∨ isDotOrE u = true) := by
+        cases rt with
+        | nil =>
+          have hne : DF ≠ [] ∨ EP ≠ [] := by
+            rcases hreal with h | h | h | ⟨d, h, hb⟩
+            · exact Or.inl h
+            · exact Or.inr h
+            · simp at h
+            · simp at h; subst h; exact absurd hb hbig
+          simp only [List.length_nil, Nat.add_zero] at hDFu hEPu
+          obtain ⟨u, h1', h2'⟩ := hnextsep (o + sign.length + 20) (by
+            rw [show o + sign.length + 20 = o + sign.length + 19 + (0 + 1) by omega]; exact hDFu) (by
+            rw [show o + sign.length + 20 + DF.length = o + sign.length + 19 + (0 + 1) + DF.length by omega]; exact hEPu) hne
+          exact ⟨u, h1', Or.inr h2'⟩
+        | cons r rt' => exact ⟨r, hrtu.1, Or.inl (hrt r (by simp))⟩
+      obtain ⟨u, hu21, hnx⟩ := hnext
+      have hu22 : unitsAt c e (o + sign.length) (d1 :: x18 ++ [d20, u]) :=
+        (unitsAt_append c e (d1 :: x18) [d20, u] (o + sign.length)).2 ⟨hIu, by
+          rw [hl19]; exact ⟨hr20, by rw [show o + sign.length + 19 + 1 = o + sign.length + 20 by omega]; exact hu21, trivial⟩⟩
+      rw [afterSign_20_next c e _ (o + sign.length) d1 x18 d20 u he h1 hx18 hl hd20 hu22 hnx hbig]
+      have hK20 : AllDigits (d1 :: x18 ++ [d20]) := by
+        intro y hy
+        simp only [List.cons_append, List.mem_cons, List.mem_append, List.mem_singleton] at hy
+        rcases hy with h | h | h
+        · subst h; exact hdig
+        · exact hx18 y h
+        · simp at h; subst h; exact hd20
+      have hv20 : decVal (d1 :: x18 ++ [d20]) = decVal (d1 :: x18) * 10 + (d20 - 48) := decVal_append_singleton _ _
+      have hv20lt : decVal (d1 :: x18 ++ [d20]) < 2 ^ 64 := by
+        rw [hv20]
+        simp [isDigit] at hd20
+        have h2 : (0x1999999999999999 : Nat) * 10 + 5 < 2 ^ 64 := by decide
+        omega
+      have hne : rt ≠ [] ∨ DF ≠ [] ∨ EP ≠ [] := by
+        rcases hreal with h | h | h | ⟨d, h, hb⟩
+        · exact Or.inr (Or.inl h)
+        · exact Or.inr (Or.inr h)
+        · left; intro hnil; subst hnil; simp at h
+        · simp at h; obtain ⟨h1', h2'⟩ := h; subst h1'; exact absurd hb hbig
+      have := glueI c e (decide (sign = [45])) (o + sign.length + 20) (o + sign.length) (d1 :: x18 ++ [d20]) d1 (x18 ++ [d20]) rt
+        F DF EP es ks 20 hbound (by simp) h1 hK20 (by simp; omega) (by omega) (by omega) hv20lt (by omega) hrt hF hrtu hDF
+        (by rw [show o + sign.length + 20 + rt.length = o + sign.length + 19 + (rt.length + 1) by omega]; exact hDFu) hEP
+        (by rw [show o + sign.length + 20 + rt.length + DF.length = o + sign.length + 19 + (rt.length + 1) + DF.length by omega]
+            exact hEPu)
+        (by omega) hne
+        (by simp only [b2n, Bool.not_false, Bool.true_and, Bool.false_eq_true, if_false]
+            rw [sub32_sub32 _ _ 0 (by omega) (by omega)]; omega)
+      rw [← hv20]
+      simpa [List.append_assoc] using this
+
 end Qentem.Props.C09
